@@ -321,6 +321,8 @@ def handle (f : Array String) : String :=
     | some s => s!"{String.ofList text} -> [{natList s.layout}] pad={s.eolPad} q={s.quirks.toMask}"
   | "db" =>
     " ; ".intercalate (histRun Db.empty ["L:" ++ f[1]!, "D"] [])
+  | "histq" =>
+    " ; ".intercalate (histRun Db.empty ((f.toList.drop 1).filter (· != "")) [])
   | "hist" =>
     " ; ".intercalate (histRun Db.empty ((f.toList.drop 1).filter (· != "")) [])
   | op => s!"ERR unknown-op {op}"
